@@ -156,3 +156,36 @@ def subst(roots, env):
             r = dag.mk(n.op, *args, prec=n.prec)
         m[n.id] = r
     return [m[r.id] for r in roots]
+
+
+def replace_nodes(roots, repl):
+    """Replace whole sub-DAGs: repl: node id -> node (the replaced nodes are not descended into)."""
+    m = {}
+    for n in dag.topo(roots):
+        if n.id in repl:
+            r = repl[n.id]
+        elif n.op in ("var", "const", "special", "btrue", "bfalse"):
+            r = n
+        else:
+            args = tuple(m[a.id] if isinstance(a, Node) else a for a in n.args)
+            r = dag.mk(n.op, *args, prec=n.prec)
+        m[n.id] = r
+    return [m[r.id] for r in roots]
+
+
+def cut_shared(pairs, ops=("call", "fdiv"), prefix="cut"):
+    """Generalise an equality goal: every sub-DAG with an operation in `ops` that occurs on BOTH sides is replaced by a fresh
+    variable (the same one on both sides).  Proving the generalised goal for all values of the fresh variables proves the
+    original one; relations between the cut terms are forgotten, so this can only lose provability, never soundness.
+    Returns (new pairs, {variable name: cut node})."""
+    L = {n.id: n for n in dag.topo([l for _, l, _ in pairs])}
+    Rr = {n.id: n for n in dag.topo([r for _, _, r in pairs])}
+    shared = [L[i] for i in L if i in Rr and L[i].op in ops]
+    repl, names = {}, {}
+    for k, n in enumerate(sorted(shared, key=lambda n: n.id)):
+        nm = "%s%d" % (prefix, k)
+        repl[n.id] = dag.var(nm, prec=n.prec)
+        names[nm] = n
+    ls = replace_nodes([l for _, l, _ in pairs], repl)
+    rs = replace_nodes([r for _, _, r in pairs], repl)
+    return [(e, a, b) for (e, _, _), a, b in zip(pairs, ls, rs)], names
